@@ -37,10 +37,17 @@ type v2Cfg struct {
 	HeightFilter  int8  `json:"height_filter"`
 	EvictionDepth int8  `json:"eviction_depth"`
 	Shard         bool  `json:"shard_trees"`
+	// Mid: reads between the writes inside one version (0 none; 1 Get/Has/Size/Height and the full-range iterators
+	// after every write; 2 every bounded iterator as well)
+	Mid int8 `json:"mid_version_reads,omitempty"`
 }
 
 func (c v2Cfg) String() string {
-	return fmt.Sprintf("cp=%d hf=%d ev=%d shard=%v", c.Checkpoint, c.HeightFilter, c.EvictionDepth, c.Shard)
+	s := fmt.Sprintf("cp=%d hf=%d ev=%d shard=%v", c.Checkpoint, c.HeightFilter, c.EvictionDepth, c.Shard)
+	if c.Mid != 0 {
+		s += fmt.Sprintf(" mid-version-reads=%d", c.Mid)
+	}
+	return s
 }
 
 type v2Op struct {
@@ -195,8 +202,16 @@ func v2Value(k string, ver int64) string {
 
 // applyBlock applies one version's writes to the v2 tree and to the model, compares the results, commits, and
 // compares the commit hash with v1 and the reference.
-func applyBlock(t *iavl2.Tree, m *v2Model, b v2Block) string {
-	for _, o := range b {
+func applyBlock(t *iavl2.Tree, m *v2Model, b v2Block) string { return applyBlockMid(t, m, b, 0) }
+
+// applyBlockMid: mid > 0 reads the working state after every write of the block (the uncommitted writes are visible).
+func applyBlockMid(t *iavl2.Tree, m *v2Model, b v2Block, mid int8) string {
+	for i, o := range b {
+		if i > 0 && mid > 0 {
+			if f := checkV2ReadsLevel(t, m.c, m.root, fmt.Sprintf("inside version %d after %d of %d writes", m.ver+1, i, len(b)), mid); f != "" {
+				return f
+			}
+		}
 		val := v2Value(o.K, m.ver+1)
 		if o.Del {
 			got, removed, err := t.Remove([]byte(o.K))
@@ -227,6 +242,11 @@ func applyBlock(t *iavl2.Tree, m *v2Model, b v2Block) string {
 			_, _ = m.v1.Set([]byte(o.K), []byte(val))
 		}
 	}
+	if mid > 0 && len(b) > 0 {
+		if f := checkV2ReadsLevel(t, m.c, m.root, fmt.Sprintf("inside version %d after its %d writes, before SaveVersion", m.ver+1, len(b)), mid); f != "" {
+			return f
+		}
+	}
 	h, v, err := t.SaveVersion()
 	m.ver++
 	if err != nil {
@@ -253,6 +273,14 @@ func applyBlock(t *iavl2.Tree, m *v2Model, b v2Block) string {
 
 // checkV2Reads compares every read of the (loaded / working) v2 tree with the model contents.
 func checkV2Reads(t *iavl2.Tree, c smap, root *ref.Node, what string, iterators bool) (fail string) {
+	if iterators {
+		return checkV2ReadsLevel(t, c, root, what, 2)
+	}
+	return checkV2ReadsLevel(t, c, root, what, 0)
+}
+
+// checkV2ReadsLevel: level 0 = lookups, Size, Height; 1 = also the full-range iterators; 2 = every bounded iterator.
+func checkV2ReadsLevel(t *iavl2.Tree, c smap, root *ref.Node, what string, level int8) (fail string) {
 	defer func() {
 		if r := recover(); r != nil {
 			fail = fmt.Sprintf("%s: panic: %v", what, r)
@@ -279,12 +307,16 @@ func checkV2Reads(t *iavl2.Tree, c smap, root *ref.Node, what string, iterators 
 	if got, want := t.Height(), ref.HeightOf(root); got != want {
 		return fmt.Sprintf("%s: Height() = %d, reference %d", what, got, want)
 	}
-	if !iterators {
+	if level == 0 {
 		return ""
 	}
 	ps := modelPairs(c)
-	for _, start := range v2Bounds {
-		for _, end := range v2Bounds {
+	bounds := v2Bounds
+	if level == 1 {
+		bounds = [][]byte{nil}
+	}
+	for _, start := range bounds {
+		for _, end := range bounds {
 			for mode := 0; mode < 3; mode++ {
 				var itr iavl2.Iterator
 				var err error
@@ -364,7 +396,7 @@ func runC19(cfg v2Cfg, hist []v2Block, dir string, st *v2Stats) (fail string) {
 	defer m.v1.Close()
 	for i, b := range hist {
 		// reads of the working state before the commit (uncommitted writes are visible)
-		if f := applyBlock(t.tree, m, b); f != "" {
+		if f := applyBlockMid(t.tree, m, b, cfg.Mid); f != "" {
 			return fmt.Sprintf("version %d: %s", i+1, f)
 		}
 		atomic.AddInt64(&st.versions, 1)
@@ -710,7 +742,7 @@ func v2Configs(tier string, persistence bool) []v2Cfg {
 		for _, hf := range []int8{0, 1} {
 			for _, ev := range []int8{-1, 0, 1, 8} {
 				for _, sh := range []bool{false, true} {
-					out = append(out, v2Cfg{cp, hf, ev, sh})
+					out = append(out, v2Cfg{cp, hf, ev, sh, 0})
 				}
 			}
 		}
@@ -769,7 +801,7 @@ func v2LongHists() [][]v2Block {
 }
 
 func v2LongCfgs() []v2Cfg {
-	return []v2Cfg{{1, 1, -1, true}, {3, 1, -1, true}, {3, 0, 0, false}, {2, 1, 1, true}, {4, 1, -1, false}}
+	return []v2Cfg{{1, 1, -1, true, 0}, {3, 1, -1, true, 0}, {3, 0, 0, false, 0}, {2, 1, 1, true, 0}, {4, 1, -1, false, 0}}
 }
 
 func enumHists(blocks []v2Block, n int) [][]v2Block {
@@ -888,18 +920,35 @@ func init() {
 		for _, h := range v2LongHists() {
 			for _, cfg := range v2LongCfgs() {
 				jobs = append(jobs, v2Job{cfg, h})
+				cfg.Mid = 2
+				jobs = append(jobs, v2Job{cfg, h})
 			}
 		}
 		// history-major order: if the budget ends early, every configuration has covered the same histories
 		for _, h := range enumHists(blocks, n) {
-			for _, cfg := range v2Configs(c.Tier, false) {
+			writes := 0
+			for _, b := range h {
+				writes += len(b)
+			}
+			for ci, cfg := range v2Configs(c.Tier, false) {
 				jobs = append(jobs, v2Job{cfg, h})
+				// the same history with reads between the writes of a version (quick: under the default, checkpoint-1,
+				// no-height-filter and sharded configurations)
+				if writes > 0 && (c.Tier == "thorough" || ci == 0 || ci == 1 || ci == 4 || ci == 8) {
+					cfg.Mid = 1
+					if c.Tier == "thorough" {
+						cfg.Mid = 2
+					}
+					jobs = append(jobs, v2Job{cfg, h})
+				}
 			}
 		}
 		if c.Tier == "thorough" {
 			// deeper histories and a 5-key set under the single-deviation configurations
 			for _, cfg := range v2Configs("quick", false) {
 				for _, h := range enumHists(v2Blocks([]string{"a", "b", "c", "d", "e"}, 1), 5) {
+					jobs = append(jobs, v2Job{cfg, h})
+					cfg.Mid = 1
 					jobs = append(jobs, v2Job{cfg, h})
 				}
 			}
@@ -909,6 +958,7 @@ func init() {
 			"normal-form histories: per version a sorted set of at most 2 writes/removals over {a,b,c}, one per key, 3 versions (thorough: also 5 versions x 1 operation over 5 keys); leaf values stored",
 			"configurations: quick = default (checkpoint 2, height filter 1, eviction -1, unsharded) and every single-dimension deviation; thorough = the full product {1,2,3,1000} x {0,1} x {-1,0,1,8} x {false,true}",
 			"every commit hash is compared with v1 MutableTree and the independent reference; reads, Size, Height and all forward / inclusive / reverse iterators over a bound set are compared with the sorted-map model after every commit",
+			"reads between the writes of one version: every history is also executed with the working state read (lookups, Size, Height, full-range iterators; thorough: every bounded iterator) after each write and before the commit - quick under 4 of the 9 configurations, thorough under all",
 		}
 		return r
 	}
